@@ -146,6 +146,31 @@ def run(ck):
         for x in walk_body(f):
             if isinstance(x, ast.Assign) and any(isinstance(t, ast.Attribute) and dotted(t) and dotted(t).startswith("self.") and "cache" in t.attr for t in x.targets):
                 stored.append("%s: %s" % (n, norm(x)[:50]))
+    # the cache answers "what does this expression, READ IN THE PRE-STATE, evaluate to": its keys are the expression asked for (and its
+    # simplified form), never the value found - a value is written over the initial symbols, and `cache[value] = value` claims that every
+    # register named in it still holds its initial content
+    ev_ = meths["eval_expr_visitor"]
+    ep_ = ev_.args.args[1].arg
+    from sa.astutil import Resolver as _Rc
+    rc_ = _Rc(ev_)
+    ret_names = set(norm(n.value) for n in walk_body(ev_) if isinstance(n, ast.Return) and isinstance(n.value, ast.Name))
+    key_bad = []
+    n_keys = 0
+    for n in walk_body(ev_):
+        if isinstance(n, ast.Assign):
+            for t in n.targets:
+                if isinstance(t, ast.Subscript) and norm(t.value) == "cache":
+                    n_keys += 1
+                    k = norm(t.slice)
+                    # accepted keys: the parameter, or a local defined once as expr_simp(parameter) / the parameter itself
+                    d_ = rc_.unique_def(k) if k.isidentifier() else None
+                    from_input = k == ep_ or (d_ is not None and ep_ in [x.id for x in ast.walk(d_) if isinstance(x, ast.Name)] and
+                                              not any(isinstance(c, ast.Call) and isinstance(c.func, ast.Name) and c.func.id == "func" for c in ast.walk(d_)))
+                    if not from_input or k in ret_names:
+                        key_bad.append(norm(n)[:60])
+    ck.ob("R2", "eval_expr_visitor:cache-keys-are-inputs", n_keys >= 1 and not key_bad, m.where(ev_),
+          "the evaluation cache is filled under a key that is not the expression asked for (%s): a result, expressed over the initial symbols, "
+          "would be looked up as if it were read in the current state" % "; ".join(key_bad))
     ck.ob("R2", "engine:no-persistent-cache", not stored, m.where(meths["eval_expr_visitor"]),
           "an evaluation cache is kept on the engine (%s): values cached before a state write would be reused after it" % stored[:2])
 
